@@ -87,3 +87,11 @@ add('C04', 'Hypothesis generated (object, getter, unit, options) tuples + metamo
     'by the molar mass summed by the harness for per-mass units). Exploration only.',
     'Trusted: constants.R values (C12); a KeyError from constants.R / the documented AttributeError for per-mass units where unsupported is an accepted refusal.',
     'DESIGN.md 3/C04')
+add('C03', 'Hypothesis generated sources x windows x break choices + oracles: anchor / continuity from reference basis functions, exact reproduction of same-family polynomials, integral bounds on H and S tracking, differential least-squares reference for Cp',
+    'NASA-7, NASA-9 (1-3 intervals) and Shomate (all fitting units) fits via from_data and from_model from StatMech species, same-family polynomials, constant-Cp and zero-Cp sources over '
+    'random windows, point counts, break choices and reference temperatures: H/RT and S/R at T_ref equal the references, H and S are continuous at every interior break (evaluated with '
+    'reference basis functions on each segment\'s coefficients), bounds equal the data span with breaks strictly inside, polynomial sources are reproduced to numerical precision, H and S '
+    'of smooth sources stay within the rigorous integral bounds sup|dCp/R| |T-T_ref|/T and sup|dCp/R| |ln T/T_ref|, and the heat-capacity residual is within 3-5x an independent '
+    'least-squares fit of the same form. Exploration only.',
+    'Trusted: vf/ref.py basis functions, StatMech Cp/H/S (C01); reference least squares uses the library\'s own split/weighting; NASA-9 intervals keep >= 9 data points.',
+    'DESIGN.md 3/C03')
